@@ -71,6 +71,87 @@ def ref_ids(lay):
     return [[(lay['prods'][i]['stage'], lay['prods'][i]['name']) for i in to] for to in ref_targets(lay)]
 
 
+# ---------------------------------------------------------------- real producers (cfg['real'])
+REAL_OBS_STAGE = 2     # the observer and its same-stage producers; the other producers live in stage 1; stage0.up is upstream
+UP_FILES = ['f.txt', 'g.dat']
+DATA_FILES = ['seed.txt', 'mesh.dat']
+
+
+def real_refs(rp):
+    """the references of one REAL producer, as FlowIR strings, in order.  rp = dict(direct=[(file, method)],
+    comp=[(file|None, method)], src=bool, late=bool): direct references to files of the package (data/<file>, or 'ABS:<file>': an
+    absolute path outside the instance), references to the upstream component stage0.up (a file of it or the whole
+    directory), and - src - a :ref reference to the same-stage, non-repeating component stage<k>.src"""
+    out = []
+    for (f, m) in rp.get('direct', []):
+        out.append(('%s:%s' % (f, m)) if f.startswith('ABS:') else 'data/%s:%s' % (f, m))
+    for (f, m) in rp.get('comp', []):
+        out.append('stage0.up%s:%s' % ('/' + f if f else '', m))
+    return out
+
+
+def real_staged(rp):
+    """(names staged in as inputs, names staged in as output (copyout)) of one real producer, by Job.stageIn's rule:
+    path methods (copy, link) are staged before the list of inputs is taken, copyout after it, ref is not staged"""
+    ins, outs = [], []
+    for (f, m) in list(rp.get('direct', [])) + [(f or 'up', m) for (f, m) in rp.get('comp', [])]:
+        name = os.path.basename(f[4:] if f.startswith('ABS:') else f)
+        if m in ('copy', 'link'):
+            ins.append(name)
+        elif m == 'copyout':
+            outs.append(name)
+    return ins, outs
+
+
+def real_flowir(cfg, absdir):
+    plist = prod_list(cfg)
+    comps = ["""- name: up
+  stage: 0
+  command:
+    executable: "sleep"
+    arguments: "1"
+- name: mid
+  stage: 1
+  command:
+    executable: "sleep"
+    arguments: "1"
+"""]
+    need_src = set()
+    obs_refs = []
+    for i, (pc, rp) in enumerate(zip(plist, cfg['real'])):
+        stage = REAL_OBS_STAGE if pc['same_stage'] else 1
+        refs = [r.replace('ABS:', absdir + '/') for r in real_refs(rp)]
+        if rp.get('src'):
+            refs.append('stage%d.src:ref' % stage)
+            need_src.add(stage)
+        used = ' '.join(r for r in refs if r.endswith(':ref'))     # (a :ref reference must appear on the command line)
+        c = '- name: prod%d\n  stage: %d\n  command:\n    executable: "echo"\n    arguments: "%s"\n' % (i, stage, used or '1')
+        if refs:
+            c += '  references:\n' + ''.join('  - "%s"\n' % r for r in refs)
+        if pc['prod_rep']:
+            c += '  workflowAttributes:\n    repeatInterval: 5\n'
+        comps.append(c)
+        obs_refs.append('stage%d.prod%d:ref' % (stage, i))
+    for stage in sorted(need_src):
+        comps.append('- name: src\n  stage: %d\n  command:\n    executable: "sleep"\n    arguments: "1"\n' % stage)
+    wa = '    repeatInterval: %d\n' % (cfg['interval'] // 1000)
+    if cfg['retries'] is not None:
+        wa += '    repeatRetries: %d\n' % cfg['retries']
+    wa += '    optimizer:\n      disable: true\n'
+    var = ''
+    if cfg['has_delay']:
+        var += '    kill-after-producers-done-delay: "30"\n'
+    if not cfg['check_out']:
+        var += '    check-producer-output: "false"\n'
+    c = ('- name: obs\n  stage: %d\n  command:\n    executable: "echo"\n    arguments: "%s"\n  references:\n%s  workflowAttributes:\n%s'
+         % (REAL_OBS_STAGE, ' '.join(obs_refs), ''.join('  - "%s"\n' % r for r in obs_refs), wa))
+    if var:
+        c += '  variables:\n' + var
+    comps.append(c)
+    return ('blueprint:\n  default:\n    global:\n      resourceManager:\n        config:\n          backend: local\n'
+            'components:\n' + ''.join(comps))
+
+
 class StopDriving(BaseException):
     """raised out of the fake sleep when the script is exhausted (the engine is still running)"""
 
@@ -199,8 +280,13 @@ class Driver(object):
             # configuration does not have is a no-op; so is, in stageIn mode, the write of a producer that has finished)
             i = int(ev[3:] or 0)
             if i < len(self.los) and (self.alive is None or self.alive[i]):
+                if self.real is not None:
+                    self._real_write(i)
                 self.los[i] = self.now_ms
                 self.eff[self.k].append(ev)
+        elif ev.startswith('Stg'):
+            # real producers: producer k is staged in now (the REAL Job.stageIn)
+            self._real_stage_in(int(ev[3:]))
         elif ev.startswith('Fin'):
             # stageIn mode: producer k finishes - its notifyFinished emits its last state and completes; the REAL
             # subscription made by ComponentState.stageIn decides whether that finishes "all producers"
@@ -232,6 +318,8 @@ class Driver(object):
                          'consume': bool(e.consume), 'pf': bool(e._producers_are_finished), 'suicide': bool(e._suicide),
                          'll': int(round((e.lastLaunched - EPOCH).total_seconds() * 1000)),
                          'actions': self.actions, 'lasts': self.lasts})
+        if self.real is not None:
+            self._real_observe()
 
     def _sleep(self, secs):
         # the monitor sleeps: one poll is over
@@ -439,6 +527,13 @@ class Driver(object):
         self.alive = None
         self.impl_w = None
         self.impl_pinst = None
+        self.real = None
+        self.wd_ops = None
+        if cfg.get('real') is not None:
+            try:
+                return self._run_real(cfg, plist, steps)
+            finally:
+                self._real_cleanup()
 
         def mkprod(i, pc):
             prod = _Obj()
@@ -493,6 +588,14 @@ class Driver(object):
         # the REAL Job.producersHaveOutputSinceDate, run on the duck-typed job
         j.producersHaveOutputSinceDate = types.MethodType(D.Job.producersHaveOutputSinceDate, j)
 
+        eng = E.RepeatingEngine(j, taskGenerator=self._gen())
+        eng.emit_now = lambda *a, **k: None
+        self.eng = eng
+        return self._drive(cfg, plist, steps, stagein)
+
+    def _gen(self):
+        drv = self
+
         def gen(job, outputFile=None, errorFile=None):
             o = drv.steps[drv.k]['o']
             if o['fail']:
@@ -501,10 +604,158 @@ class Driver(object):
             t = FakeTask(drv, o)
             drv.execs.append((drv.now_ms, bool(drv.eng._producers_are_finished), o['rc'], list(drv.los), drv.k))
             return t
+        return gen
 
-        eng = E.RepeatingEngine(j, taskGenerator=gen)
-        eng.emit_now = lambda *a, **k: None
-        self.eng = eng
+    # ------------------------------------------------------------------ real producers
+    def _run_real(self, cfg, plist, steps):
+        """cfg['real'] (one entry per producer, see real_refs): the observer and its producers are REAL
+        experiment.model.data.Job objects of an experiment instantiated from a scratch package; the producers' working
+        directories are REAL JobWorkingDirectory objects on disk, staged in by the REAL Job.stageIn (StageReference
+        copies / links the referenced files); a producer's write creates a file in its directory.  File timestamps follow
+        the fake clock (os.utime).  Engine.canConsume / Job.producersHaveOutputSinceDate / Job.producerInstances /
+        WorkingDirectory.output / outputSinceDate are all the real ones."""
+        import tempfile
+        import uuid
+        import experiment.model.storage as ST
+        E, D = self.E, self.D
+        assert len(cfg['real']) == len(plist) and plist, cfg
+        self.real = cfg['real']
+        self.tmp = tempfile.mkdtemp(prefix='verif_c13_')
+        self.wd_ops = [[] for _ in plist]       # per producer: what happened to its directory + what it reported
+        self.wd_bad = []
+        self.staged = [False] * len(plist)
+        self.nwrites = [0] * len(plist)
+        self.made = [dict() for _ in plist]     # per producer: what it created itself (+ its copyout references): name -> time
+        lvl = logging.root.manager.disable
+        logging.disable(logging.CRITICAL)
+        try:
+            absdir = os.path.join(self.tmp, 'ext')
+            os.makedirs(absdir)
+            for f in DATA_FILES:
+                with open(os.path.join(absdir, f), 'w') as fh:
+                    fh.write('outside the instance\n')
+            pp = os.path.join(self.tmp, '%s.package' % uuid.uuid4())
+            os.makedirs(os.path.join(pp, 'conf'))
+            os.makedirs(os.path.join(pp, 'data'))
+            with open(os.path.join(pp, 'conf', 'flowir_package.yaml'), 'w') as fh:
+                fh.write(real_flowir(cfg, absdir))
+            for f in DATA_FILES:
+                with open(os.path.join(pp, 'data', f), 'w') as fh:
+                    fh.write('an input\n')
+            try:
+                pkg = ST.ExperimentPackage.packageFromLocation(pp)
+                exp = D.Experiment.experimentFromPackage(pkg, location=self.tmp)
+                if cfg.get('validate', True):
+                    exp.validateExperiment(checkExecutables=False)
+                self.exp = exp
+                j = exp.findJob(REAL_OBS_STAGE, 'obs')
+                self.job = j
+                self.job_prods = [exp.findJob(REAL_OBS_STAGE if pc['same_stage'] else 1, 'prod%d' % i)
+                                  for i, pc in enumerate(plist)]
+                # the upstream component has produced its files
+                up = exp.findJob(0, 'up')
+                for f in UP_FILES:
+                    with open(os.path.join(up.workingDirectory.path, f), 'w') as fh:
+                        fh.write('upstream output\n')
+                pinst = list(j.producerInstances)
+                if [id(x) for x in pinst] != [id(x) for x in self.job_prods]:
+                    self.errors.append('real:producerInstances')
+                if [bool(x.isRepeat) for x in pinst] != [pc['prod_rep'] for pc in plist]:
+                    self.errors.append('real:isRepeat')
+                eng = E.RepeatingEngine(j, taskGenerator=self._gen())
+                eng.emit_now = lambda *a, **k: None
+                self.eng = eng
+            except Exception as e:
+                self.errors.append('real-setup:%s:%s' % (type(e).__name__, str(e)[:1500]))
+        finally:
+            logging.disable(lvl)
+        if self.errors:
+            return {'obs': [], 'finished': False, 'execs': [], 'errors': list(self.errors), 'nsteps': 0, 'fired': [],
+                    'kills': [], 'los': list(self.los), 'eff': [list(e) for e in self.eff], 'w': None, 'pinst': None,
+                    'wd_ops': self.wd_ops, 'wd_bad': self.wd_bad}
+        # every producer that the script does not stage in later is staged in before the observer starts
+        # (a producer marked late is staged in by the script's Stg<i> event - or by its first write)
+        for i in range(len(plist)):
+            if not self.real[i].get('late'):
+                self._real_stage_in(i)
+        res = self._drive(cfg, plist, steps, False)
+        res['wd_ops'] = self.wd_ops
+        res['wd_bad'] = self.wd_bad
+        return res
+
+    def _real_cleanup(self):
+        import shutil
+        if getattr(self, 'tmp', None):
+            shutil.rmtree(self.tmp, ignore_errors=True)
+            self.tmp = None
+        self.exp = None
+
+    def _ts(self):
+        return (EPOCH + _dt.timedelta(milliseconds=self.now_ms)).timestamp()
+
+    def _real_stage_in(self, i):
+        if i >= len(self.job_prods) or self.staged[i]:
+            return
+        self.staged[i] = True
+        prod = self.job_prods[i]
+        lvl = logging.root.manager.disable
+        logging.disable(logging.CRITICAL)
+        try:
+            prod.stageIn()
+        except Exception as e:
+            self.errors.append('Job.stageIn:%s:%s' % (type(e).__name__, str(e)[:1500]))
+            return
+        finally:
+            logging.disable(lvl)
+        d = prod.workingDirectory.path
+        ins, outs = real_staged(self.real[i])
+        if sorted(os.listdir(d)) != sorted(set(ins + outs)):
+            self.errors.append('Job.stageIn: staged %s, expected %s' % (sorted(os.listdir(d)), sorted(set(ins + outs))))
+        for f in os.listdir(d):
+            os.utime(os.path.join(d, f), (self._ts(), self._ts()))     # (through a link: the file it leads to)
+        self.wd_ops[i].append(('stage', list(ins), list(outs), self.now_ms))
+        if outs:
+            # copyout references are output of the component by design: it has output from now on
+            self.los[i] = self.now_ms
+            for n in outs:
+                self.made[i][n] = self.now_ms
+
+    def _real_write(self, i):
+        """producer i creates (or rewrites) one output file in its working directory"""
+        if not self.staged[i]:
+            self._real_stage_in(i)       # a component runs only after it has been staged in
+        names = ['out.dat', 'res.csv', 'log.txt']
+        name = names[(self.nwrites[i] // 2) % len(names)]       # every second write rewrites the previous file
+        self.nwrites[i] += 1
+        path = os.path.join(self.job_prods[i].workingDirectory.path, name)
+        with open(path, 'a') as fh:
+            fh.write('output at %d\n' % self.now_ms)
+        os.utime(path, (self._ts(), self._ts()))
+        self.wd_ops[i].append(('put', name, self.now_ms))
+        self.made[i][name] = self.now_ms
+
+    def _real_observe(self):
+        """what the REAL working directory of each producer reports as output (names) and as output since the date
+        the engine asks about (lastLaunched)"""
+        date = self.eng.lastLaunched
+        ll = int(round((date - EPOCH).total_seconds() * 1000))
+        for i, prod in enumerate(self.job_prods):
+            try:
+                out = sorted(os.path.basename(x) for x in prod.workingDirectory.output)
+                since = sorted(os.path.basename(x) for x in prod.workingDirectory.outputSinceDate(date))
+            except Exception as e:
+                self.errors.append('WorkingDirectory.output:%s' % type(e).__name__)
+                continue
+            self.wd_ops[i].append(('obs', ll, out, since))
+            want = sorted(self.made[i])
+            want_since = sorted(n for n, t in self.made[i].items() if t > ll)
+            if (out != want or since != want_since) and len(self.wd_bad) < 3:
+                self.wd_bad.append({'producer': i, 'poll': self.k, 'output': out, 'made': want, 'since_ms': ll,
+                                    'output_since': since, 'made_since': want_since})
+
+    def _drive(self, cfg, plist, steps, stagein):
+        drv = self
+        eng = self.eng
         if stagein and not self._stage_in(cfg, plist):
             # the producer list could not be built / stageIn raised: nothing runs
             return {'obs': [], 'finished': False, 'execs': [], 'errors': list(self.errors), 'nsteps': 0, 'fired': [],
